@@ -56,6 +56,10 @@ var c13Bundles = [][]c13File{
 		{"three.soy", "{namespace d}\n/** @param x */\n{template .fwd2}\n{call c.sink data=\"all\"/}\n{/template}\n"}},
 	// 16: a plural message with several explicit cases (their order in the id's fingerprint is the source order)
 	{{"one.soy", "{namespace a}\n/** @param x */\n{template .t}\n{msg desc=\"f\"}{plural $x.n}{case 0}none{case 2}two{case 1}one{default}{$x.n} many{/plural}{/msg}\n{/template}\n"}},
+	// 17: one expression without a derivable placeholder name, printed in a message of one file and
+	// selecting the plural form in a message of another file
+	{{"one.soy", "{namespace a}\n/** @param c */\n{template .t}\n{msg desc=\"p\"}first: {$c[0]}{/msg}\n{/template}\n"},
+		{"two.soy", "{namespace b}\n/** @param c */\n{template .t}\n{msg desc=\"q\"}{plural $c[0]}{case 1}one{default}many{/plural}{/msg}\n{/template}\n"}},
 }
 
 var c13Globals = data.Map{"G_MAP": data.Map{"k2": data.Int(2), "k1": data.String("v")}, "G_LIST": data.List{data.Int(1), data.String("s")}}
@@ -73,6 +77,9 @@ func c13MsgIDs(n ast.Node, out *[]byte) {
 			if ph, ok := c.(*ast.MsgPlaceholderNode); ok {
 				*out = append(*out, ph.Name...)
 				*out = append(*out, ',')
+			}
+			if pl, ok := c.(*ast.MsgPluralNode); ok {
+				*out = append(*out, ("~" + pl.VarName + ",")...)
 			}
 		}
 		*out = append(*out, ';')
@@ -161,4 +168,25 @@ func H_bundle(t, perm int) {
 		verifAssert(e0 == e1, "C13: error text depends on iteration or file order")
 		verifAssert(r0 == r1, "C13: message ids, rendered output or generated JavaScript depend on iteration or file order")
 	}
+}
+
+func has13(s, sub string) bool {
+	for i := 0; i+len(sub) <= len(s); i++ {
+		if s[i:i+len(sub)] == sub {
+			return true
+		}
+	}
+	return false
+}
+
+// H_bundleFirst: bundle 17 as the first compilation of a process, its files added in order perm
+// (whatever the process compiled before must not matter, so what the first compilation yields is
+// what every compilation yields): the printed occurrence of $c[0] gets the fallback name of a
+// print (XXX), the plural selector that of a plural (NUM), in either file order.
+func H_bundleFirst(perm int) {
+	d, e, r := c13Run(17, perm)
+	verifObserve("err", e)
+	verifAssert(d == "accept", "harness: bundle 17 is valid")
+	verifObserve("ids", r)
+	verifAssert(has13(r, ":XXX,;") && has13(r, ":~NUM,;"), "C13: placeholder names (and with them message ids) depend on the order in which files were compiled")
 }
